@@ -1,7 +1,7 @@
 //! C15 — module constants are exported with the WGSL type and the exact value.
 //!
 //! Oracle: naga's constant evaluator. Every named `module.constants` entry whose initialiser in
-//! `module.global_expressions` is a `Literal` must appear exactly once as `pub const NAME: TY = VALUE;`
+//! `module.global_expressions` is a `Literal` (or the `ZeroValue` of a scalar type, e.g. `i32()`) must appear exactly once as `pub const NAME: TY = VALUE;`
 //! with TY fixed by the literal variant and VALUE reading back (Rust literal rules) to the same bits;
 //! every other named constant must not appear at all.
 
@@ -93,29 +93,29 @@ fn candidate(rng: &mut Rng, prior: &[(String, T)]) -> (T, Option<&'static str>, 
         8 => (T::F32, None, format!("{}f", rng.pick(&["0.0", "-0.0", "1.5", "1e-45", "3.4028234e38", "0.1", "2"]))),
         9 | 10 => (T::F64, if rng.chance(1, 2) { Some("f64") } else { None }, rng.pick(&F64_VALUES).to_string()),
         11 => (T::F64, Some("f64"), format!("f64({})", rng.pick(&["2.5", "-0.0", "0.1", "1e-45", "7", "-1.5", "-4.9e-324", "-1.7976931348623157e308", "-0.1"]))),
-        12 => (T::Bool, if rng.chance(1, 2) { Some("bool") } else { None }, rng.pick(&["true", "false", "!true", "1 < 2", "2.0 <= 1.0", "true && false", "3u == 3u"]).to_string()),
+        12 => (T::Bool, if rng.chance(1, 2) { Some("bool") } else { None }, rng.pick(&["true", "false", "!true", "1 < 2", "2.0 <= 1.0", "true && false", "3u == 3u", "bool()", "!bool()"]).to_string()),
         13 => (T::I64, if rng.chance(1, 2) { Some("i64") } else { None }, rng.pick(&I64_VALUES).to_string()),
         14 => (T::U64, if rng.chance(1, 2) { Some("u64") } else { None }, rng.pick(&U64_VALUES).to_string()),
         15 => (
             // constant expressions over literals
             T::I32,
             None,
-            rng.pick(&["1 + 2 * 3", "7 % 3", "-(-3)", "1 << 3", "(1 << 30) - 1 + (1 << 30)", "i32(3.9f)", "i32(-3.9f)", "select(1, 2, true)", "abs(-5)", "clamp(17, 0, 9)", "i32(4000000000u)", "-2147483647 - 1", "countOneBits(255)", "vec3(1, 2, 3).y", "array<i32, 3>(4, 5, 6)[2]"]).to_string(),
+            rng.pick(&["1 + 2 * 3", "7 % 3", "-(-3)", "1 << 3", "(1 << 30) - 1 + (1 << 30)", "i32(3.9f)", "i32(-3.9f)", "select(1, 2, true)", "abs(-5)", "clamp(17, 0, 9)", "i32(4000000000u)", "-2147483647 - 1", "countOneBits(255)", "vec3(1, 2, 3).y", "array<i32, 3>(4, 5, 6)[2]", "i32()", "i32() + 1", "vec2<i32>().x"]).to_string(),
         ),
-        16 => (T::U32, None, rng.pick(&["1u << 31u", "~0u", "max(1u, 7u)", "u32(7)", "4294967295u / 2u", "u32(3.99f)", "vec2<u32>(8u, 9u).x", "0u - 0u", "firstLeadingBit(256u)"]).to_string()),
+        16 => (T::U32, None, rng.pick(&["1u << 31u", "~0u", "max(1u, 7u)", "u32(7)", "4294967295u / 2u", "u32(3.99f)", "vec2<u32>(8u, 9u).x", "0u - 0u", "firstLeadingBit(256u)", "u32()"]).to_string()),
         17 => (
             T::F32,
             None,
             rng.pick(&[
-                "1.0 / 3.0", "0.1 + 0.2", "sqrt(2.0)", "pow(2.0, 10.0)", "floor(-1.5)", "f32(7)", "f32(16777217)", "7.0 / 2", "abs(-2.5)", "-(0.0)", "0.0 * -1.0", "1e-45 * 0.5", "1e38 * 3.0", "fract(1.25)", "sign(-0.0)", "min(-0.0, 0.0)", "f32(0.1lf)", "vec2<f32>(0.25, -0.0).y", "exp2(-149.0)", "ceil(-0.5)", "round(2.5)", "trunc(-0.9)",
+                "1.0 / 3.0", "0.1 + 0.2", "sqrt(2.0)", "pow(2.0, 10.0)", "floor(-1.5)", "f32(7)", "f32(16777217)", "7.0 / 2", "abs(-2.5)", "-(0.0)", "0.0 * -1.0", "1e-45 * 0.5", "1e38 * 3.0", "fract(1.25)", "sign(-0.0)", "min(-0.0, 0.0)", "f32(0.1lf)", "vec2<f32>(0.25, -0.0).y", "exp2(-149.0)", "ceil(-0.5)", "round(2.5)", "trunc(-0.9)", "f32()", "-f32()", "vec3<f32>().z",
             ])
             .to_string(),
         ),
-        18 => (T::F64, None, rng.pick(&["0.1lf + 0.2lf", "1.0lf / 3.0lf", "-(0.0lf)", "f64(1) / f64(3)", "f64(0.1f)", "1e308lf * 1.5lf", "sqrt(2.0lf)"]).to_string()),
+        18 => (T::F64, None, rng.pick(&["0.1lf + 0.2lf", "1.0lf / 3.0lf", "-(0.0lf)", "f64(1) / f64(3)", "f64(0.1f)", "1e308lf * 1.5lf", "sqrt(2.0lf)", "f64()"]).to_string()),
         _ => (
             T::NonScalar,
             None,
-            rng.pick(&["vec3<f32>(1.0, 2.0, 3.0)", "vec2(1, 2)", "array<i32, 2>(1, 2)", "mat2x2<f32>(1.0, 0.0, 0.0, 1.0)", "vec4<bool>(true)", "array<vec2<f32>, 1>(vec2<f32>(0.0))", "CPair(1, 2.0)", "vec3<u32>()"]).to_string(),
+            rng.pick(&["vec3<f32>(1.0, 2.0, 3.0)", "vec2(1, 2)", "array<i32, 2>(1, 2)", "mat2x2<f32>(1.0, 0.0, 0.0, 1.0)", "vec4<bool>(true)", "array<vec2<f32>, 1>(vec2<f32>(0.0))", "CPair(1, 2.0)", "vec3<u32>()", "CPair()", "array<f32, 2>()", "mat2x2<f32>()"]).to_string(),
         ),
     }
 }
@@ -152,6 +152,21 @@ fn shader(seed: u64, i: usize, tier: Tier) -> String {
         _ => {}
     }
     text
+}
+
+/// Zero of a scalar type, written out independently of naga's helper.
+fn zero_of(s: naga::Scalar) -> Option<naga::Literal> {
+    use naga::ScalarKind as K;
+    Some(match (s.kind, s.width) {
+        (K::Float, 4) => naga::Literal::F32(0.0),
+        (K::Float, 8) => naga::Literal::F64(0.0),
+        (K::Sint, 4) => naga::Literal::I32(0),
+        (K::Uint, 4) => naga::Literal::U32(0),
+        (K::Sint, 8) => naga::Literal::I64(0),
+        (K::Uint, 8) => naga::Literal::U64(0),
+        (K::Bool, _) => naga::Literal::Bool(false),
+        _ => return None,
+    })
 }
 
 fn literal_expectation(l: &naga::Literal) -> (&'static str, String) {
@@ -199,7 +214,7 @@ impl Property for C15 {
         "C15"
     }
     fn rule(&self) -> &'static str {
-        "Seeded shaders with 3-16 module constants: explicit and inferred i32/u32/f32/f64/bool/i64/u64, abstract int/float, negative values, -0.0, extremes, subnormals, hex floats, constant expressions (arithmetic, shifts, conversions, builtins, vector/array element picks), references to earlier constants, and non-scalar constants (vec/mat/array/struct), each declaration pre-filtered by naga's front end; oracle = naga's evaluated module: a named constant whose global expression is a Literal must appear exactly once as `pub const NAME: TY = VALUE;` with TY by literal variant and VALUE reading back bit-identically (suffix absent or equal to TY); any other named constant must not be exported."
+        "Seeded shaders with 3-16 module constants: explicit and inferred i32/u32/f32/f64/bool/i64/u64, abstract int/float, negative values, -0.0, extremes, subnormals, hex floats, constant expressions (arithmetic, shifts, conversions, builtins, vector/array element picks), references to earlier constants, and non-scalar constants (vec/mat/array/struct), each declaration pre-filtered by naga's front end; oracle = naga's evaluated module: a named constant whose global expression is a Literal (or the zero value of a scalar type) must appear exactly once as `pub const NAME: TY = VALUE;` with TY by literal variant and VALUE reading back bit-identically (suffix absent or equal to TY); any other named constant must not be exported."
     }
 
     fn cases(&self, seed: u64, tier: Tier) -> Vec<Case> {
@@ -245,8 +260,21 @@ impl Property for C15 {
         for (_, c) in m.constants.iter() {
             let Some(name) = &c.name else { continue };
             let found = find(&items, Kind::Const, name);
-            match &m.global_expressions[c.init] {
-                naga::Expression::Literal(l) => {
+            // the evaluated value: a literal, or the zero value of a scalar type (`i32()`, `f32()`, ...)
+            let value: Option<naga::Literal> = match &m.global_expressions[c.init] {
+                naga::Expression::Literal(l) => Some(*l),
+                naga::Expression::ZeroValue(ty) => match &m.types[*ty].inner {
+                    naga::TypeInner::Scalar(s) => zero_of(*s),
+                    _ => None,
+                },
+                _ => None,
+            };
+            // a scalar-typed constant in a form this oracle cannot evaluate: not judged
+            if value.is_none() && matches!(m.types[c.ty].inner, naga::TypeInner::Scalar(_)) {
+                continue;
+            }
+            match &value {
+                Some(l) => {
                     let (ty, shown) = literal_expectation(l);
                     match found.as_slice() {
                         [it] => {
